@@ -95,7 +95,7 @@ def aggregate(prop, tier, seed, plan, results, t0):
     counters, stats, kinds, crash_mech, extra = Counter(), Counter(), Counter(), Counter(), {}
     viol_count = Counter()
     viols, samples, nthashes, inconcl = [], [], set(), []
-    cases = crashed = steps = sigs = 0
+    cases = crashed = steps = sigs = nt_extra = 0
     per_engine = Counter()
     for r in results:
         if "inconclusive" in r:
@@ -113,6 +113,7 @@ def aggregate(prop, tier, seed, plan, results, t0):
         viol_count.update(r["viol_count"])
         viols.extend(r["viol"])
         nthashes.update(h for h in r["nontrivial_hashes"] if h)
+        nt_extra += r.get("nontrivial_extra", 0)
         if len(samples) < 3:
             samples.extend(r["samples"][: 3 - len(samples)])
         for k, v in r.get("extra", {}).items():
@@ -156,7 +157,7 @@ def aggregate(prop, tier, seed, plan, results, t0):
     floors = FLOORS.get(prop, {}).get(tier, {})
     floor_fail = []
     agg_all = dict(counters)
-    agg_all.update({"cases": cases, "distinct_nontrivial": len(nthashes)})
+    agg_all.update({"cases": cases, "distinct_nontrivial": len(nthashes) + nt_extra})
     for name, minimum in floors.items():
         val = agg_all.get(name, stats.get(name, extra.get(name, 0)))
         if not isinstance(val, (int, float)) or val < minimum:
@@ -167,7 +168,7 @@ def aggregate(prop, tier, seed, plan, results, t0):
         "property_id": prop, "tier": tier, "seed": seed, "level": "exploration",
         "coverage": {
             "evaluations": cases,
-            "distinct_nontrivial": len(nthashes),
+            "distinct_nontrivial": len(nthashes) + nt_extra,
             "rule": RULES[prop],
             "samples": samples[:3] or [{"note": "no sample"}],
             "exhaustive": bool(extra.get("exhaustive_scopes")),
@@ -196,12 +197,13 @@ def aggregate(prop, tier, seed, plan, results, t0):
         "wall_s": round(wall, 2),
         "violations": int(sum(unknown.values())),
     }
-    os.makedirs(os.path.join(HERE, "evidence"), exist_ok=True)
-    with open(os.path.join(HERE, "evidence", f"{prop}.json"), "w") as f:
+    evdir = os.environ.get("VERIF_EVIDENCE_DIR") or os.path.join(HERE, "evidence")
+    os.makedirs(evdir, exist_ok=True)
+    with open(os.path.join(evdir, f"{prop}.json"), "w") as f:
         json.dump(evidence, f, indent=1, default=repr)
     for l in out_lines:
         print(l)
-    print(f"[{prop} {tier}] cases={cases} distinct_nontrivial={len(nthashes)} crashed={crashed} "
+    print(f"[{prop} {tier}] cases={cases} distinct_nontrivial={len(nthashes) + nt_extra} crashed={crashed} "
           f"unlisted_violations={sum(unknown.values())} known_hits={sum(known_hits.values())} "
           f"inconclusive_shards={len(inconcl)} wall={wall:.1f}s verdict={status}")
     if unknown:
